@@ -119,21 +119,26 @@ class C05(Check):
         import yaw  # noqa: F401
 
     # ------------------------------------------------------------------
-    def _build_world(self, tmp, rng, P):
+    def _build_world(self, tmp, rng, P, name="base"):
         r = np.deg2rad(0.7)
         centres = cats.layout_centres(rng, P, r * 1.5)
         cobj = cats.coords_obj(centres)
 
-        def mk(name, n_each, w):
-            xyz, _ = cats.points_around(rng, centres, n_each, r)
+        def mk(name, n_each, w):  # noqa: F811
+            xyz, src = cats.points_around(rng, centres, n_each, r)
             xyz = np.concatenate([xyz, centres])
+            src = np.concatenate([src, np.arange(len(centres))])
             ra, dec = gen.xyz_to_radec(xyz)
             z = rng.uniform(0.1, 1.0, len(ra))
             z[rng.choice(len(z), len(z) // 3, replace=False)] = rng.choice([0.1, 0.4, 0.7, 1.0], len(z) // 3)  # exactly on bin edges
-            return cats.create(tmp / "base" / name, cats.table(ra, dec, z=z,
+            if name == "ref":  # a sparse low-redshift sample: the first patch has no object in the lowest bin
+                low = (src == 0) & (z <= 0.4)
+                z[low] = rng.uniform(0.45, 0.95, int(low.sum()))
+            return cats.create(tmp / world / name, cats.table(ra, dec, z=z,
                                                                w=rng.uniform(0.5, 2, len(ra)) if w else None), centers=cobj)
 
-        (tmp / "base").mkdir()
+        world = name
+        (tmp / world).mkdir()
         mk("ref", rng.integers(8, 30, P), True)
         mk("unk", rng.integers(8, 30, P), False)
         mk("rr", rng.integers(10, 30, P), False)
@@ -142,7 +147,8 @@ class C05(Check):
     closed = "right"
 
     def _run_all(self, tmp, tag, max_workers, entry="all"):
-        """Run every entry point on a fresh copy of the base caches; returns dict of serialisations."""
+        """Run every entry point on a fresh copy of the base caches; returns dict of serialisations.
+        ``tmp`` may be a relative path (the caches are then addressed relative to the working directory)."""
         import yaw
         from yaw import Catalog, Configuration, HistData
 
@@ -164,6 +170,10 @@ class C05(Check):
         if entry == "all":
             res["cross"] = ser_corrfuncs(yaw.crosscorrelate(cfg, c["ref"], c["unk"], ref_rand=c["rr"], unk_rand=c["ur"], max_workers=max_workers))
             res["auto"] = ser_corrfuncs(yaw.autocorrelate(cfg, c["ref"], c["rr"], max_workers=max_workers))
+            # separation weighting on physical scales (the angular grid differs from redshift bin to redshift bin)
+            cfg_rw = Configuration.create(rmin=[0.1, 0.5], rmax=[2.0, 8.0], unit="Mpc", rweight=-0.8, resolution=12,
+                                          edges=[0.1, 0.4, 0.7, 1.0], closed=self.closed)
+            res["cross_rweight"] = ser_corrfuncs(yaw.crosscorrelate(cfg_rw, c["ref"], c["unk"], ref_rand=c["rr"], unk_rand=c["ur"], max_workers=max_workers))
             # the same measurement after another binning was used sequentially on the same caches and
             # in the same process (in-process memos must not leak into / out of pool workers)
             cfg_a = Configuration.create(rmin=[0.02, 0.1], rmax=[0.3, 1.0], unit="deg", edges=[0.1, 0.55, 1.0], closed="left")
@@ -189,25 +199,47 @@ class C05(Check):
         with Scratch("c05") as tmp:
             self._build_world(tmp, rng, P)
             os.environ["YAW_NUM_THREADS"] = "1"
-            want = self._run_all(tmp, "seq", 1)
+            if case["kind"] == "real":
+                # the sequential reference runs in its own process: pool workers are forked from a parent that has
+                # not counted a single pair itself (nothing computed sequentially can be inherited by them)
+                rs = run_forked(lambda: self._run_all(tmp, "seq", 1), workdir=tmp, wall_cap=240)
+                if rs["outcome"] != "returned":
+                    return [result(ERROR, detail=f"sequential reference: {rs}", nontrivial=False)]
+                want = rs["value"]
             if case["kind"].startswith("fake"):
-                if case["kind"] == "fake-exhaustive":
-                    sched = fakepool.Schedule(explicit={4: tuple(case["perm"])}, policy="random", seed=case["seed"])
-                else:
-                    sched = fakepool.Schedule(policy=case["policy"], seed=case["seed"])
-                try:
+                # everything that counts pairs runs in a forked child: the check's worker process itself never
+                # executes library computations, so nothing it computed can be inherited by later pool workers
+                def fake_child():
+                    want_ = self._run_all(tmp, "seq", 1)
+                    if case["kind"] == "fake-exhaustive":
+                        sched = fakepool.Schedule(explicit={4: tuple(case["perm"])}, policy="random", seed=case["seed"])
+                    else:
+                        sched = fakepool.Schedule(policy=case["policy"], seed=case["seed"])
                     with fakepool.installed(sched, workers=case["workers"]):
-                        got = self._run_all(tmp, "fake", case["workers"] if case["workers"] > 1 else 2)
-                except Exception as e:
-                    bad(f"fakepool-run:raises-{type(e).__name__}", dict(error=str(e)[:300]))
+                        got_ = self._run_all(tmp, "fake", case["workers"] if case["workers"] > 1 else 2)
+                    return dict(want=want_, got=got_, calls=sched.calls, log=[[a, b, list(c)] for a, b, c in sched.log])
+
+                rf = run_forked(fake_child, workdir=tmp, wall_cap=300)
+                if rf["outcome"] == "raised":
+                    bad(f"fakepool-run:raises-{rf['type']}", dict(error=rf["message"][:300]))
                     return out
+                if rf["outcome"] != "returned":
+                    return [result(ERROR, detail=f"fake-pool child: {rf}", nontrivial=False)]
+                want, got, log_ = rf["value"]["want"], rf["value"]["got"], rf["value"]["log"]
                 counters["fakepool_runs"] = 1
-                counters["fakepool_maps"] = sched.calls
-                nonid = sum(1 for _, T, p in sched.log if list(p) != list(range(T)))
+                counters["fakepool_maps"] = rf["value"]["calls"]
+                nonid = sum(1 for _, T, p in log_ if list(p) != list(range(T)))
                 counters["schedules_not_identity"] = nonid
                 nontrivial = nonid > 0 or case.get("policy") == "identity" or case.get("perm") == [0, 1, 2, 3]
-                sample = dict(case=case, maps=sched.calls, first_orders=[list(p) for _, _, p in sched.log[:4]])
+                sample = dict(case=case, maps=rf["value"]["calls"], first_orders=[list(p) for _, _, p in log_[:4]])
             else:
+                relocate = case_bits(case, "relocate") % 2 == 0
+                if relocate:
+                    self._build_world(tmp, np.random.default_rng([case["seed"], 55]), P, name="other")
+                    (tmp / "elsewhere").mkdir()
+                    shutil.move(str(tmp / "other"), str(tmp / "elsewhere" / "real"))
+                    counters["relocated_sessions"] = 1
+
                 def child():
                     import yaw.utils.parallel as par
 
@@ -240,7 +272,21 @@ class C05(Check):
 
                     par.ParallelJob.__call__ = delayed
                     par.iter_unordered = observing
-                    res = self._run_all(tmp, "real", case["workers"])
+                    if relocate:
+                        # the session first works, in parallel, in another directory that holds equally named
+                        # caches of OTHER data, addressed by relative paths; then it changes directory
+                        from yaw import Catalog
+
+                        os.chdir(tmp / "elsewhere")
+                        for f in Path("real").glob("*/patch_*/meta.yml"):
+                            f.unlink()
+                        for k in ("ref", "unk", "rr", "ur"):
+                            cat_ = Catalog(Path("real") / k, max_workers=case["workers"])
+                            cat_.build_trees(None if k in ("unk", "ur") else [0.1, 0.4, 0.7, 1.0], closed=self.closed, max_workers=case["workers"])
+                        os.chdir(tmp)
+                        res = self._run_all(Path("."), "real", case["workers"])
+                    else:
+                        res = self._run_all(tmp, "real", case["workers"])
                     res["_orders"] = order_log
                     return res
 
